@@ -732,7 +732,7 @@ PROPS = {
     },
     "C08": {
         "module": "DnsModel.Theorems.C08Seq", "theorems": ["Dns.C08.run_total", "Dns.C08.step_total", "Dns.C08.run_inv", "Dns.C08.step_inv", "Dns.C08.inv_start", "Dns.C08.consistent_view", "Dns.C08.consistent_counts", "Dns.C08.after_decompression", "Dns.C08.recompute_consistent", "Dns.C08.iter_uncompress_consistent", "Dns.C08.first_touch_consistent", "Dns.C08.insert_answer_consistent", "Dns.C08.insert_authority_consistent", "Dns.C08.insert_additional_consistent", "Dns.C08.delete_consistent", "Dns.C08.set_ttl_consistent", "Dns.C08.set_ip_consistent", "Dns.C08.set_name_consistent", "Dns.C08.header_consistent", "Dns.C08.rename_fresh", "Dns.C08.question_read", "Dns.C08.PlainObj.pointerFree", "Dns.EdnsOK.matches_parse", "Dns.PlainObj.parse_info", "Dns.ednsOf_of_run", "Dns.ednsOK_replace", "Dns.ednsOK_remove", "Dns.ednsOK_remove_opt"],
-        "families": [{"name": "script-boundary", "quick": 0, "thorough": 0, "fixed": True}, {"name": "rename-script", "quick": 0, "thorough": 0, "fixed": True}, {"name": "script", "quick": 2500, "thorough": 100000}],
+        "families": [{"name": "script-boundary", "quick": 0, "thorough": 0, "fixed": True}, {"name": "rename-script", "quick": 0, "thorough": 0, "fixed": True}, {"name": "script-rawinsert", "quick": 0, "thorough": 0, "fixed": True}, {"name": "script", "quick": 2500, "thorough": 100000}],
         "oracle": oracle_c08, "nontrivial": nontrivial_script, "shrink": False,
         "rule": "scripts of 1-6 macro operations (open/advance/act/observe/advance, header setters, text insertion, question insertion, rename, recompute, cache reads) over accepted packets in 4 layouts with/without OPT and over empty(); state observed after every operation; non-trivial = distinct scripts with at least one successful mutating operation",
         "level": "proof",
@@ -743,7 +743,7 @@ PROPS = {
     },
     "C09": {
         "module": "DnsModel.Theorems.C09", "theorems": ["Dns.C09.insert_exact_answer", "Dns.C09.insert_exact_authority", "Dns.C09.insert_exact_additional", "Dns.C09.delete_exact", "Dns.C09.set_ttl_exact", "Dns.C09.set_ip_exact", "Dns.C09.set_name_exact", "Dns.C09.header_exact", "Dns.C09.first_touch", "Dns.C09.set_name_flagged", "Dns.C09.delete_flagged", "Dns.PlainObj.replace_at", "Dns.resize_write", "Dns.piece_shape"],
-        "families": [{"name": "script-boundary", "quick": 0, "thorough": 0, "fixed": True}, {"name": "script-refusals", "quick": 0, "thorough": 0, "fixed": True}, {"name": "script", "quick": 2500, "thorough": 100000}],
+        "families": [{"name": "script-boundary", "quick": 0, "thorough": 0, "fixed": True}, {"name": "script-refusals", "quick": 0, "thorough": 0, "fixed": True}, {"name": "script-rawinsert", "quick": 0, "thorough": 0, "fixed": True}, {"name": "script", "quick": 2500, "thorough": 100000}],
         "oracle": oracle_c09, "nontrivial": nontrivial_script, "shrink": False,
         "rule": "same scripts as C08; after every operation the decoded message is compared with the message before plus exactly the specified change",
         "level": "proof",
@@ -754,7 +754,7 @@ PROPS = {
     },
     "C10": {
         "module": "DnsModel.Theorems.C10", "theorems": ["Dns.C10.insert_size_limit", "Dns.C10.insert_failure_plain", "Dns.C10.insert_too_large", "Dns.C10.delete_void_unchanged", "Dns.C10.set_name_invalid", "Dns.C10.set_name_arg_total", "Dns.C10.set_name_void", "Dns.C10.set_ip_failure", "Dns.C10.rename_failure", "Dns.C10.set_name_too_large"],
-        "families": [{"name": "script-big", "quick": 0, "thorough": 0, "fixed": True}, {"name": "script-fail", "quick": 2500, "thorough": 100000}, {"name": "script", "quick": 500, "thorough": 20000}],
+        "families": [{"name": "script-big", "quick": 0, "thorough": 0, "fixed": True}, {"name": "script-rawinsert", "quick": 0, "thorough": 0, "fixed": True}, {"name": "script-fail", "quick": 2500, "thorough": 100000}, {"name": "script", "quick": 500, "thorough": 20000}],
         "oracle": oracle_c10, "nontrivial": lambda c, a: "err:" in a, "shrink": False,
         "rule": "scripts biased to failing arguments (ill-formed / over-long names, tombstone cursors, malformed and out-of-range record texts, second question, overflowing renames), exact-limit sweeps (8192 +- for insertions, also on packets whose OPT advertises 512..65535 bytes; 65535 +- for owner growth); non-trivial = distinct scripts in which at least one operation failed",
         "level": "proof",
@@ -878,9 +878,9 @@ MANIFEST_TEXT = {
             "note": NOTE, "technique": "Lean 4 proof (dictionary invariant, emission lemmas, case-fold comparison soundness, parametricity in the output) + model/implementation correspondence + reference decoder oracle"},
     "C07": {"text": "Lean theorems for every accepted packet, every well-formed pointer-free non-root source/target and both modes: the renamer (model: replace_raw, per-type data lengths, OPT in place, the compressor's dictionary) either returns a packet that satisfies the acceptance policy, keeps the header bytes, counts and record order, and whose question, owner names and NS/CNAME/PTR/MX/SOA names are exactly the renamings of the input's (a name, or in suffix mode a suffix on a label boundary, equal to the source up to case is replaced by the target; every other name kept) up to ASCII case with all other bytes incl. OPT identical, or fails with InvalidName because a renamed name would exceed 255 bytes; self-renaming never fails and changes nothing up to case. Real output byte-identical to the model's; oracle compares the decoded result with the specified renaming of the decoded input (matches at every depth, near-misses, case, growth past 255).",
             "note": NOTE, "technique": "Lean 4 proof (replace_raw characterisation, rename relation, compressor invariant reused) + model/implementation correspondence + reference decoder oracle"},
-    "C08": {"text": "Lean theorems: the invariant Consistent (plain object: header, question, three lists of canonical record pieces with the section starts and counts that follow from them; cleared may-contain-pointers flag; question cache empty or right; EDNS summary = the one the additional pieces determine) implies that the bytes are accepted by the parser and that a fresh parse reports exactly the section starts and the EDNS summary (position and count of options, extended rcode, version, flags, payload size) the object holds; counts = numbers of records, absent start iff empty section, bytes pointer-free, cached question = uncached question. The invariant holds after decompression/recompute of any accepted packet and is preserved by insert (3 sections), delete (including the OPT record), set_rr_ttl, set_rr_ip, set_raw_name (after which the cursor still designates the record and next yields the one that followed) and the header setters; a successful object-level rename leaves exactly the view of a fresh parse. Sequences: run_total / run_inv over the script semantics of Theorems/C08Seq.lean: no allowed script panics and every one ends consistent (any finite list of open/next/close/delete/set-TTL/set-address/set-name/insert/header-setter/recompute operations satisfying the documented preconditions); by-design findings KF1-KF5 excluded by the preconditions. State-machine model (packet object + one cursor) of every mutator; after every operation of every script the real object's bytes, public fields, cache and cursor equal the model's, and the oracle re-derives the view from the bytes alone.",
+    "C08": {"text": "Lean theorems: the invariant Consistent (plain object: header, question, three lists of canonical record pieces with the section starts and counts that follow from them; cleared may-contain-pointers flag; question cache empty or right; EDNS summary = the one the additional pieces determine) implies that the bytes are accepted by the parser and that a fresh parse reports exactly the section starts and the EDNS summary (position and count of options, extended rcode, version, flags, payload size) the object holds; counts = numbers of records, absent start iff empty section, bytes pointer-free, cached question = uncached question. The invariant holds after decompression/recompute of any accepted packet and is preserved by insert (3 sections), delete (including the OPT record), set_rr_ttl, set_rr_ip, set_raw_name (after which the cursor still designates the record and next yields the one that followed) and the header setters; a successful object-level rename leaves exactly the view of a fresh parse. Sequences: run_total / run_inv over the script semantics of Theorems/C08Seq.lean: no allowed script panics and every one ends consistent (any finite list of open/next/close/delete/set-TTL/set-address/set-name/insert/header-setter/recompute operations satisfying the documented preconditions); by-design findings KF1-KF6 excluded by the preconditions. State-machine model (packet object + one cursor) of every mutator; after every operation of every script the real object's bytes, public fields, cache and cursor equal the model's, and the oracle re-derives the view from the bytes alone.",
             "note": NOTE, "technique": "Lean 4 proof (representation invariant incl. EDNS summary as a function of the pieces, preserved by every mutator) + step-wise model/implementation correspondence on operation scripts + reference decoder oracle"},
-    "C09": {"text": 'Lean theorems on the piece-list representation of pointer-free objects: insert appends exactly the given record and raises only that count; delete removes exactly the record under the cursor and lowers only that count; set_rr_ttl / set_rr_ip replace exactly the TTL / address bytes of that record; set_raw_name replaces exactly its owner name for growing, shrinking and equal lengths; header setters touch bytes 0-3 only; everything else (other records and their order, question, other header fields, EDNS summary fields) is equal; on a still-flagged (possibly compressed) object the first set_raw_name/delete first turns it into the plain object of the canonical pieces with the cursor carried to the same record. Exclusions are the by-design findings KF1-KF5. Same scripts as C08: after every operation the decoded message must be the message before with exactly the specified change (abstract list operation on the decoded message); operations that have no ground to be refused must succeed (a name that is not longer than the one it replaces, on packets of any size; a valid record that fits, into sections of 253-300 records).',
+    "C09": {"text": 'Lean theorems on the piece-list representation of pointer-free objects: insert appends exactly the given record and raises only that count; delete removes exactly the record under the cursor and lowers only that count; set_rr_ttl / set_rr_ip replace exactly the TTL / address bytes of that record; set_raw_name replaces exactly its owner name for growing, shrinking and equal lengths; header setters touch bytes 0-3 only; everything else (other records and their order, question, other header fields, EDNS summary fields) is equal; on a still-flagged (possibly compressed) object the first set_raw_name/delete first turns it into the plain object of the canonical pieces with the cursor carried to the same record. Exclusions are the by-design findings KF1-KF6 (KF6: insert_rr of a record built with RR::new that the validator does not admit; admissible records built that way are exercised by the `insertrr` script operation and judged by the oracle). Same scripts as C08: after every operation the decoded message must be the message before with exactly the specified change (abstract list operation on the decoded message); operations that have no ground to be refused must succeed (a name that is not longer than the one it replaces, on packets of any size; a valid record that fits, into sections of 253-300 records).',
             "note": NOTE, "technique": 'Lean 4 proof (piece shape lemmas, replace/delete/insert on the piece lists, resize-then-write byte lemma, decompress-first step) + step-wise correspondence + abstract-message oracle'},
     "C10": {"text": 'Lean theorems: insertion never yields more than 8192 bytes for any object and reports PacketTooLarge instead; a failing insert_rr on a pointer-free object (too large, second question, full section), delete/set_raw_name through a tombstoned cursor, an invalid or over-long name, set_rr_ip with the wrong family, and an overflowing rename all return the object as it was. Scripts biased to failing arguments and packets around/beyond 8192 and 65535 bytes: every failed call must leave the decoded message unchanged and the object consistent. Not proved (correspondence only): malformed text at the object API, failures after the decompress-first step.',
             "note": NOTE, "technique": 'Lean 4 proof (order of check and modify in the model of each mutator) + step-wise correspondence + abstract-message oracle'},
